@@ -167,6 +167,8 @@ type fakeClient struct {
 	reqs        []recReq
 	decodeErr   string
 	consecRec   int
+	gate        chan struct{} // non-nil: a successful Store returns only once the gate is closed (slow endpoint)
+	failing     atomic.Bool   // true: every Store fails with a recoverable error (endpoint down for a while)
 }
 
 func (c *fakeClient) Name() string     { return "verif-c40" }
@@ -213,6 +215,9 @@ func (c *fakeClient) Store(ctx context.Context, req []byte, _ int) (remote.Write
 	} else {
 		outcome = 2
 	}
+	if c.failing.Load() {
+		outcome = 1
+	}
 	if outcome == 1 {
 		c.consecRec++
 	} else {
@@ -231,6 +236,13 @@ func (c *fakeClient) Store(ctx context.Context, req []byte, _ int) (remote.Write
 	}
 	if lat > 0 {
 		time.Sleep(time.Duration(lat) * time.Microsecond)
+	}
+	if c.gate != nil && outcome == 0 {
+		select {
+		case <-c.gate:
+		case <-ctx.Done():
+			return remote.WriteResponseStats{}, ctx.Err()
+		}
 	}
 	switch outcome {
 	case 1:
